@@ -24,5 +24,6 @@ INVARIANT BadBlocks
 INVARIANT Transparent
 INVARIANT Unbindable
 INVARIANT RanLate
+INVARIANT KindFollows
 INVARIANT AgreesWithRun
 CHECK_DEADLOCK FALSE
